@@ -1,6 +1,7 @@
 import Model.Common.Proto
 import Model.C15.Wire
 import Model.C15.Text
+import Model.C15.Eval
 import Generated.Miniscript
 open Btc Btc.Miniscript Btc.Miniscript.Wire
 
@@ -30,6 +31,17 @@ def handle : List String → String
       match parse c (b.map fun x => Char.ofNat x.toNat) with
       | some n => "ok " ++ " ".intercalate (render n)
       | none => "err value"
+    | _, _ => "bad-op"
+  | "exec" :: ctx :: sigs :: wit :: toks =>
+    -- sigs: `key:sig,…` (the signatures that verify); wit: the witness stack, bottom first, `,`-separated
+    match readTable sigs, (if wit == "-" then some [] else (wit.splitOn ",").mapM fromHex?) with
+    | some sg, some w => withMs ctx toks fun c n =>
+      let sigOK : Key → Bytes → Bool := fun k σ => !σ.isEmpty && sg.any fun p => p.1 == k && p.2 == σ
+      match exec sigOK (opsOf c (fun _ => []) false n) ⟨w.reverse, [], []⟩ with
+      | some st => if st.alt.isEmpty && st.conds.isEmpty
+          then "ok " ++ (if st.stack.isEmpty then "-" else ",".intercalate (st.stack.map toHex))
+          else "err unbalanced"
+      | none => "err fail"
     | _, _ => "bad-op"
   | "pushnum" :: [n] =>
     match n.toNat? with
